@@ -317,4 +317,45 @@ theorem penalised_sum {α} (q : α → K) (p : K) (Ss : List α) (hn : Ss ≠ []
     simpa using List.length_pos_iff.mpr hn |>.ne'
   field_simp
 
+/-- the penalised full-data Hessian product: every subset step subtracts the subset product and one share of the prior term -/
+theorem hessTimesPenFull_eq (c : Consts K) (img x : Nat → K) (p nn out0 : K) (Ss : List (List (Viewgram K))) (v : Nat) :
+    hessTimesPenFull c img x p nn out0 Ss v = hessTimes c img x out0 Ss.flatten v - (Ss.length : K) * (p / nn) := by
+  unfold hessTimesPenFull
+  induction Ss generalizing out0 with
+  | nil => simp [hessTimes_eq, sumMap_nil]
+  | cons S Ss ih =>
+    rw [List.foldl_cons, ih]
+    simp only [hessTimes_eq, penalisedHess, List.flatten_cons, sumMap_append, List.length_cons]
+    push_cast; ring
+
+theorem approxHessPenFull_eq (c : Consts K) (x : Nat → K) (p nn out0 : K) (Ss : List (List (Viewgram K))) (v : Nat) :
+    approxHessPenFull c x p nn out0 Ss v = approxHess c x out0 Ss.flatten v - (Ss.length : K) * (p / nn) := by
+  unfold approxHessPenFull
+  induction Ss generalizing out0 with
+  | nil => simp [approxHess_eq, sumMap_nil]
+  | cons S Ss ih =>
+    rw [List.foldl_cons, ih]
+    simp only [approxHess_eq, penalisedHess, List.flatten_cons, sumMap_append, List.length_cons]
+    push_cast; ring
+
+theorem length_mul_share {α} (Ss : List α) (hn : Ss ≠ []) (p : K) : (Ss.length : K) * (p / (Ss.length : K)) = p := by
+  have : (Ss.length : K) ≠ 0 := by
+    simpa using List.length_pos_iff.mpr hn |>.ne'
+  field_simp
+
+/-! ## what `set_up` makes of the configuration -/
+
+theorem subsetsBalanced_iff (cs : List Nat) : subsetsBalanced cs = true ↔ ∀ a ∈ cs, ∀ b ∈ cs, a = b := by
+  cases cs with
+  | nil => simp [subsetsBalanced]
+  | cons c0 cs =>
+    simp only [subsetsBalanced, List.all_eq_true, beq_iff_eq, List.mem_cons]
+    constructor
+    · intro h a ha b hb
+      have ha' : a = c0 := by rcases ha with rfl | ha; rfl; exact h a ha
+      have hb' : b = c0 := by rcases hb with rfl | hb; rfl; exact h b hb
+      rw [ha', hb']
+    · intro h a ha
+      exact h a (Or.inr ha) c0 (Or.inl rfl)
+
 end StirVerif.C05
